@@ -387,6 +387,11 @@ def R_forcontinue(toks):
                         # the new else-block is the rest of the loop body: go on inside it (a second `if … { continue; }`)
                         k = m + 4   # bc now indexes the `}` closing the else-block
                         continue
+                    if me + 1 == bc:
+                        # `if … { BLOCK }` (no else) is the last statement of the region: a `continue` inside BLOCK skips the rest
+                        # of BLOCK only, so BLOCK is treated like the loop body itself
+                        k = m + 1; bc = me
+                        continue
                     break
                 # skip one top-level statement
                 while k < bc and out[k].text != ";":
